@@ -341,6 +341,6 @@ Definition quoted_literal (v : str) : str := 39 :: esc_sq v ++ [39].
 
 (* known findings (operations whose statement still interpolates a value; see known_findings.d/C19.json) *)
 Definition known_ops : list str := map of_string
-  ["Neo4jPropertyGraph.serialize_graph"; "Neo4jPropertyGraph.merge_nodes";
+  ["Neo4jPropertyGraph.serialize_graph";
    "Neo4jCBMGraph.get_matching_nodes_with_components"]%string.
 Definition excused (t : tmpl) : bool := mem (t_op t) known_ops && has_value_hole (t_frags t).
